@@ -322,7 +322,7 @@ class Prop(core.Prop):
             if again != got:
                 vs.append(viol('second-call-differs', sig, 'first call %r, second call on the same file %r'
                                % (got, again), **scope))
-            if form.startswith('cf'):
+            if True:
                 gb = [rtime.tuple_of(t) for t in f.getTimes(bounds=True)]
                 wb = want + [rtime.tuple_of(rtime.ioapi_times(sdate, stime, ts, nt + 1)[-1])]
                 if gb != wb:
